@@ -234,10 +234,21 @@ class Flow:
             d = ds[0]
             if d.kind == "entry":
                 return e.id
-            if d.kind == "stmt" and isinstance(d.ast, ast.Assign) and len(d.ast.targets) == 1 \
-                    and isinstance(d.ast.targets[0], ast.Name):
-                return self.resolves_to_param(d.ast.value, d, depth + 1)
+            if d.kind == "stmt" and def_value(d) is not None:
+                return self.resolves_to_param(def_value(d), d, depth + 1)
         return None
+
+    def resolve_copies(self, e: ast.expr, at: Optional[Node] = None, depth=0) -> ast.expr:
+        """Follow plain copies `v = <expr>` from a name to the expression it was bound to (single definition)."""
+        at = at or self.at(e)
+        while isinstance(e, ast.Name) and depth < 10:
+            ds = self.rd.reaching(at, e.id)
+            if len(ds) != 1 or ds[0].kind != "stmt" or def_value(ds[0]) is None:
+                break
+            at = ds[0]
+            e = def_value(ds[0])
+            depth += 1
+        return e
 
 
 def _walk_expr(e, descend_call=None):
@@ -266,6 +277,25 @@ def _target_names(t) -> List[str]:
             out += _target_names(e)
         return out
     return []
+
+
+def def_value(node) -> Optional[ast.expr]:
+    """Value expression of a definition node that is a plain `name = value` / `name: T = value`."""
+    st = getattr(node, "ast", node)
+    if isinstance(st, ast.Assign) and len(st.targets) == 1 and isinstance(st.targets[0], ast.Name):
+        return st.value
+    if isinstance(st, ast.AnnAssign) and isinstance(st.target, ast.Name) and st.value is not None:
+        return st.value
+    return None
+
+
+def def_target(node) -> Optional[str]:
+    st = getattr(node, "ast", node)
+    if isinstance(st, ast.Assign) and len(st.targets) == 1 and isinstance(st.targets[0], ast.Name):
+        return st.targets[0].id
+    if isinstance(st, ast.AnnAssign) and isinstance(st.target, ast.Name) and st.value is not None:
+        return st.target.id
+    return None
 
 
 def stmts_in(fnode) -> Iterable[ast.stmt]:
@@ -310,3 +340,17 @@ def user_argument_reads(ana: Analysis) -> Dict[str, List[Tuple[FuncInfo, ast.Att
                 if ty == ("cls", ua.qualname):
                     out[n.attr].append((fi, n))
     return out
+
+
+def alloc_dims(t):
+    """Dimensions of numpy.zeros/ones/empty(...) as a list of terms (shape given positionally or by keyword, as a scalar,
+    tuple or list), else None."""
+    from ..terms import App, Lst, Tup
+    if not (isinstance(t, App) and t.fn in ("numpy.zeros", "numpy.ones", "numpy.empty")):
+        return None
+    shp = t.args[0] if t.args else t.kwarg("shape")
+    if shp is None:
+        return None
+    if isinstance(shp, (Tup, Lst)):
+        return list(shp.elems)
+    return [shp]
